@@ -357,6 +357,22 @@ func streamHooks(prop string) Hooks {
 					}
 				}
 				if tgt == nil {
+					// every stream has been claimed and cancelled: nothing may be left in the escrow (coins that no
+					// stream accounts for can never be claimed or refunded - stranded funds)
+					if w.stop() || w.Diverged || w.C.InBlock {
+						return
+					}
+					ctx := w.C.Ctx()
+					listed := sdk.NewCoins()
+					w.C.App.StreamKeeper.IterateAllStreams(ctx, func(_, _ sdk.AccAddress, st streamtypes.Stream) bool {
+						listed = listed.Add(st.Deposit)
+						return false
+					})
+					if esc := w.C.App.BankKeeper.GetAllBalances(ctx, w.addrName("stream-escrow").Bytes); listed.IsZero() && !esc.IsZero() {
+						w.Fail("C12", "after every stream was claimed by its receiver and cancelled by its sender, %s remain in the stream escrow and no stream accounts for them: stranded funds", esc)
+					} else if listed.IsZero() {
+						w.Class("c12.sweep-left-escrow-empty")
+					}
 					return
 				}
 				blk := Block{DtMs: 1000}
